@@ -133,7 +133,7 @@ class _encode_iri_indices:
 
 # --------------------------------------------------------------------------------------------------- encode_iri
 from pyvc.contract import MSG  # noqa: E402
-from pyvc.spec import msg_written  # noqa: E402
+from pyvc.spec import msg_written, which_tag  # noqa: E402
 
 
 @contract(f"{SE}:TermEncoder.encode_iri", serves=["C03", "C01", "C19", "C18", "C14"])
@@ -226,53 +226,164 @@ class _encode_literal:
             "sizes-fixed": D.lookup.max_size == oD.lookup.max_size,
         }
 
-    def on_raise(e): return {"nothing-changed": True}
-
 
 # ---------------------------------------------------------------------------------------------- slot accessors
-SLOT_PREFIX = {0: "s", 1: "p", 2: "o"}
+# get_iri_field / get_literal_field / get_triple_field return a sub-message *of the statement* (an alias, not a value)
+# and set_bnode_field writes one string: three-line functions whose only specification is "the slot asked for".  They
+# are executed in place; a wrong slot fails `term-in-slot` / `other-slots-untouched` of the callers.
+for _n in ("get_iri_field", "get_literal_field", "get_triple_field", "set_bnode_field"):
+    inline(f"{SE}:TermEncoder.{_n}")
+
+inline(f"{SE}:TermEncoder.encode_spo")      # base implementation: two lines that raise NotImplementedError
+inline(f"{SE}:TermEncoder.encode_graph")
+
+# ------------------------------------------------------------------------ GenericSinkTermEncoder.encode_spo / graph
+from .terms import GTerm, needs_dt, occ_d, occ_n  # noqa: E402
+
+GS_SER = "pyjelly.integrations.generic.serialize"
+ONEOF_OF_SLOT = {0: ("subject", "s"), 1: ("predicate", "p"), 2: ("object", "o")}
+
+# which exception encoding a term ends in (0 none, 1 NotImplementedError, 2 JellyConformanceError); `dz` = the datatype
+# table is disabled.  One-level unfolding is supplied where it is used; the nested case follows the encoding order s,p,o.
+exc_of = z3.Function("exc_of", GTerm, z3.BoolSort(), z3.IntSort())
 
 
-def _slot_accessor(kind_suffix: str, msg_type: str, setter: bool = False) -> Any:
-    class C:
-        params = {"self": OBJ(TENC), "statement": MSG("RdfTriple"), "slot": INT}
-        result = None if setter else MSG(msg_type)
-
-        def requires(e): return And(e.slot >= 0, e.slot <= 3)
-    return C
-
-
-for _name, _suffix, _mt in (("get_iri_field", "iri", "RdfIri"), ("get_literal_field", "literal", "RdfLiteral"),
-                            ("get_triple_field", "triple_term", "RdfTriple")):
-    def _mk(suffix: str, mt: str) -> Any:
-        class C:
-            params = {"self": OBJ(TENC), "statement": MSG("RdfTriple"), "slot": INT}
-            result = MSG(mt)
-
-            def requires(e): return And(e.slot >= 0, e.slot <= 3)
-
-            def ensures(e):
-                st = e.statement
-                # identity of the returned sub-message: the slot asked for (anything else than s/p means object)
-                return {"slot-asked-for": And(
-                    Implies(e.slot == 0, e.result == getattr(st, f"s_{suffix}")),
-                    Implies(e.slot == 1, e.result == getattr(st, f"p_{suffix}")),
-                    Implies(And(e.slot != 0, e.slot != 1), e.result == getattr(st, f"o_{suffix}")))}
-        return C
-    contract(f"{SE}:TermEncoder.{_name}", serves=["C03", "C01"])(_mk(_suffix, _mt))
+def exc_unfold(t: Any, dz: Any) -> Any:
+    qs, qp, qo = GTerm.qs(t), GTerm.qp(t), GTerm.qo(t)
+    return And(
+        Implies(Or(GTerm.is_IRI(t), GTerm.is_BNode(t)), exc_of(t, dz) == 0),
+        Implies(GTerm.is_Lit(t), exc_of(t, dz) == z3.If(And(needs_dt(t), dz), 2, 0)),
+        Implies(Or(GTerm.is_Other(t), GTerm.is_DefaultGraph(t)), exc_of(t, dz) == 1),
+        Implies(GTerm.is_QTriple(t), exc_of(t, dz) == z3.If(exc_of(qs, dz) != 0, exc_of(qs, dz),
+                                                          z3.If(exc_of(qp, dz) != 0, exc_of(qp, dz), exc_of(qo, dz)))),
+        exc_of(t, dz) >= 0, exc_of(t, dz) <= 2)
 
 
-@contract(f"{SE}:TermEncoder.set_bnode_field", serves=["C03", "C01"])
-class _set_bnode_field:
-    params = {"self": OBJ(TENC), "statement": MSG("RdfTriple"), "slot": INT, "identifier": STR}
-    modifies = ["statement"]
-    touches = ["statement"]
+def slot_is_unset(st: Any, slot: Any) -> Any:
+    return And(*[Implies(slot == j, which_unset(st, ONEOF_OF_SLOT[j][0])) for j in (0, 1, 2)])
 
-    def requires(e): return And(e.slot >= 0, e.slot <= 3)
+
+def lit_fields_ok(L: Any, t: Any, D: Any) -> Any:
+    """RdfLiteral message L carries literal term t (lex, langtag or datatype id resolved through encoder table D)"""
+    has_lang = And(GTerm.has_lang(t), GTerm.lang(t) != "")
+    need = needs_dt(t)
+    return And(L.lex == GTerm.lex(t),
+               Implies(need, And(which_is(L, "datatype"), L.datatype == od_get(D.lookup.data, GTerm.dt(t)), L.datatype >= 1,
+                                 od_touched(D.lookup.data, GTerm.dt(t)))),
+               Implies(And(has_lang, Not(need)), And(which_is(L, "langtag"), L.langtag == GTerm.lang(t))),
+               Implies(And(Not(has_lang), Not(need)), which_unset(L, "literalKind")))
+
+
+def other_slots_untouched(new: Any, old: Any, slot: Any, prefixes: tuple = ("s", "p", "o")) -> Any:
+    """every oneof group other than the one of `slot` keeps its tag and its (flat) content"""
+    out = []
+    for j, (oneof, p) in ONEOF_OF_SLOT.items():
+        same = And(which_tag(new, oneof) == which_tag(old, oneof),
+                   getattr(new, f"{p}_bnode") == getattr(old, f"{p}_bnode"),
+                   getattr(new, f"{p}_iri").prefix_id == getattr(old, f"{p}_iri").prefix_id,
+                   getattr(new, f"{p}_iri").name_id == getattr(old, f"{p}_iri").name_id,
+                   getattr(new, f"{p}_literal").lex == getattr(old, f"{p}_literal").lex,
+                   getattr(new, f"{p}_literal").langtag == getattr(old, f"{p}_literal").langtag,
+                   getattr(new, f"{p}_literal").datatype == getattr(old, f"{p}_literal").datatype,
+                   which_tag(getattr(new, f"{p}_literal"), "literalKind") == which_tag(getattr(old, f"{p}_literal"), "literalKind"))
+        out.append(Implies(slot != j, same))
+    return And(*out)
+
+
+def _which_eq(a: Any, b: Any) -> Any:
+    return a == b
+
+
+def term_in_slot(e: Any, st: Any, slot: Any, t: Any, E: Any, O: Any) -> Any:
+    """the oneof group of `slot` in statement message `st` now carries term `t`"""
+    en = E.prefixes.lookup.max_size > 0
+    pk, nk = enc_keys(GTerm.iri(t), en)
+    out = []
+    for j, (oneof, p) in ONEOF_OF_SLOT.items():
+        iri = getattr(st, f"{p}_iri")
+        lit = getattr(st, f"{p}_literal")
+        out.append(Implies(slot == j, And(
+            Implies(GTerm.is_IRI(t), And(which_is(st, f"{p}_iri"),
+                                         iri_ids_denote(O.prefixes, O.names, E.prefixes, E.names, pk, nk, en, iri.prefix_id, iri.name_id),
+                                         Ite(en, z3.Concat(pk, nk) == GTerm.iri(t), nk == GTerm.iri(t)))),
+            Implies(GTerm.is_BNode(t), And(which_is(st, f"{p}_bnode"), getattr(st, f"{p}_bnode") == GTerm.ident(t))),
+            Implies(GTerm.is_Lit(t), And(which_is(st, f"{p}_literal"), lit_fields_ok(lit, t, E.datatypes))),
+            Implies(GTerm.is_QTriple(t), which_is(st, f"{p}_triple_term")))))
+    return And(*out)
+
+
+def lru_all(O: Any, E: Any, t: Any) -> dict:
+    en = E.prefixes.lookup.max_size > 0
+    return {
+        "lru-names": lru_step(O.names.lookup.data, E.names.lookup.data, E.names.lookup.max_size, occ_n(t)),
+        "lru-prefixes": lru_step(O.prefixes.lookup.data, E.prefixes.lookup.data, E.prefixes.lookup.max_size, Ite(en, occ_n(t), 0)),
+        "lru-datatypes": lru_step(O.datatypes.lookup.data, E.datatypes.lookup.data, E.datatypes.lookup.max_size, occ_d(t)),
+        "sizes-fixed": And(E.names.lookup.max_size == O.names.lookup.max_size,
+                           E.prefixes.lookup.max_size == O.prefixes.lookup.max_size,
+                           E.datatypes.lookup.max_size == O.datatypes.lookup.max_size),
+    }
+
+
+@contract(f"{GS_SER}:GenericSinkTermEncoder.encode_spo", serves=["C03", "C01", "C19", "C18", "C20", "C15"])
+class _generic_encode_spo:
+    """One term of a statement into its slot.  Flat terms (IRI, blank node, literal) are proved to be *denoted* by what
+    is written (ids resolve to the term's strings); for a quoted triple this contract carries completeness, the
+    entry-row accounting and the LRU accounting, the nested denotation being covered by the bounded nets only."""
+    params = {"self": OBJ(GENC), "term": ADTS("gterm"), "slot": INT, "statement": MSG("RdfTriple")}
+    result = ROWS
+    modifies = ["self.names", "self.prefixes", "self.datatypes", "statement"]
+
+    def requires(e):
+        dz = e.self.datatypes.lookup.max_size == 0
+        return And(wf_te(e.self), e.slot >= 0, e.slot <= 2, slot_is_unset(e.statement, e.slot), exc_unfold(e.term, dz))
+
+    def raises(e):
+        dz = e.self.datatypes.lookup.max_size == 0
+        return {"NotImplementedError": exc_of(e.term, dz) == 1, "JellyConformanceError": exc_of(e.term, dz) == 2}
+
+    def on_raise(e):
+        return {"tables-still-well-formed": wf_te(e.self)}
 
     def ensures(e):
-        st = e.statement
-        return {"slot-asked-for": And(
-            Implies(e.slot == 0, And(which_is(st, "s_bnode"), st.s_bnode == e.identifier)),
-            Implies(e.slot == 1, And(which_is(st, "p_bnode"), st.p_bnode == e.identifier)),
-            Implies(And(e.slot != 0, e.slot != 1), And(which_is(st, "o_bnode"), st.o_bnode == e.identifier)))}
+        E, O = e.self, e.old.self
+        out = {"wf": wf_te(E),
+               "rows-account-for-table-changes": rows_account(O, E, e.result.items),
+               "term-in-slot": term_in_slot(e, e.statement, e.slot, e.term, E, O),
+               "other-slots-untouched": other_slots_untouched(e.statement, e.old.statement, e.slot),
+               "message-written": msg_written(e.statement)}
+        out.update(lru_all(O, E, e.term))
+        return out
+
+
+@contract(f"{SE}:TermEncoder.encode_quoted_triple", serves=["C03", "C01", "C18", "C20"])
+class _encode_quoted_triple:
+    params = {"self": OBJ(GENC), "terms": ADTS("gterm"), "quoted_statement": MSG("RdfTriple")}
+    result = ROWS
+    modifies = ["self.names", "self.prefixes", "self.datatypes", "quoted_statement"]
+
+    def requires(e):
+        dz = e.self.datatypes.lookup.max_size == 0
+        t = e.terms
+        return And(wf_te(e.self), GTerm.is_QTriple(t), exc_unfold(t, dz),
+                   exc_unfold(GTerm.qs(t), dz), exc_unfold(GTerm.qp(t), dz), exc_unfold(GTerm.qo(t), dz),
+                   which_unset(e.quoted_statement, "subject"), which_unset(e.quoted_statement, "predicate"),
+                   which_unset(e.quoted_statement, "object"))
+
+    def raises(e):
+        dz = e.self.datatypes.lookup.max_size == 0
+        return {"NotImplementedError": exc_of(e.terms, dz) == 1, "JellyConformanceError": exc_of(e.terms, dz) == 2}
+
+    def on_raise(e):
+        return {"tables-still-well-formed": wf_te(e.self)}
+
+    def ensures(e):
+        E, O = e.self, e.old.self
+        q = e.quoted_statement
+        out = {"wf": wf_te(E),
+               "rows-account-for-table-changes": rows_account(O, E, e.result.items),
+               # C03: quoted triples are complete - no repeated-term marker inside
+               "quoted-triple-complete": And(Not(which_unset(q, "subject")), Not(which_unset(q, "predicate")),
+                                             Not(which_unset(q, "object"))),
+               "message-written": msg_written(q)}
+        out.update(lru_all(O, E, e.terms))
+        return out
